@@ -83,7 +83,7 @@ def _ref(which, Jd, uu, u_is_none, norm_eps, reg_eps, key):
     return _REF_CACHE[k]
 
 
-def check_one(J, u, norm_eps, reg_eps, dtype, which, key=None):
+def check_one(J, u, norm_eps, reg_eps, dtype, which, key=None, pref_dtype=None):
     """Runs the real aggregator on J and compares with the reference.
     Returns (viol|None, {oracle: err/tol}, nontrivial, outcome)."""
     import torch
@@ -93,7 +93,8 @@ def check_one(J, u, norm_eps, reg_eps, dtype, which, key=None):
     Jt = torch.tensor(J, dtype=dt)
     Jd = Jt.double().numpy()  # the matrix really seen (after rounding to dtype)
     m = J.shape[0]
-    pref = None if u is None else torch.tensor(u, dtype=dt)
+    # the preference vector may be given in a coarser dtype than the matrix (float32, or integers): the weights must not be rounded to it
+    pref = None if u is None else torch.tensor(u, dtype=dt if pref_dtype is None else getattr(torch, pref_dtype))
     cls = UPGrad if which == "upgrad" else DualProj
     agg = cls(pref_vector=pref, norm_eps=norm_eps, reg_eps=reg_eps)
     uu = np.full(m, 1.0 / m) if u is None else (pref.double().numpy())
@@ -174,6 +175,9 @@ def _configs(J0, fam):
                 configs.append((1.0, None, u, ne, re_, "float64"))
             for u in (None, P[-1], P[-2]):
                 configs.append((ne * 10, None, u, ne, re_, "float64"))
+            if k == 0:
+                configs.append((1.0, None, np.arange(1, m + 1, dtype=np.float64), ne, re_, "float64", "int64"))
+                configs.append((1.0, None, P[-2], ne, re_, "float64", "float32"))
             if k == 0:  # extreme global scales, where squaring the matrix before normalising it would overflow / underflow
                 for u in (None, P[-2]):
                     configs.append((1e160, None, u, ne, re_, "float64"))
@@ -231,7 +235,9 @@ def run_case(case):
     if case["fam"] == "eps":
         execs += _reuse_check(mats, viol)
     for mi, J0 in enumerate(mats):
-        for ci, (t, c, u, ne, re_, dtype) in enumerate(_configs(J0, case["fam"])):
+        for ci, cfg_ in enumerate(_configs(J0, case["fam"])):
+            t, c, u, ne, re_, dtype = cfg_[:6]
+            pdt = cfg_[6] if len(cfg_) > 6 else None
             J = J0.copy()
             if c is not None:
                 J = c[:, None] * J
@@ -241,7 +247,7 @@ def run_case(case):
             ukey = None if u is None else tuple(u.tolist())
             ckey = None if c is None else tuple(c.tolist())
             for which in ("upgrad", "dualproj"):
-                v, mg, nt, out = check_one(J, u, ne, re_, dtype, which, key=(mi, ckey, ukey))
+                v, mg, nt, out = check_one(J, u, ne, re_, dtype, which, key=(mi, ckey, ukey, pdt), pref_dtype=pdt)
                 execs += 1
                 if out == "dropped":
                     dropped += 1
